@@ -138,12 +138,17 @@ type Model struct {
 	Facts map[int]int
 	// NoInline disables inlining of single-block helpers.
 	NoInline bool
+	// InlineAll, if set, selects callees that are interpreted in place (loops included) instead of being summarised.
+	InlineAll func(fn *ssa.Function) bool
 	// ResultLen gives the known length of the slice returned by a callee (by Name).
 	ResultLen map[string]int
 	// TermLen gives lengths of opaque slice terms established outside the analysed region (e.g. by an earlier loop).
 	TermLen map[string]int
 	// MaxPaths bounds path enumeration.
 	MaxPaths int
+	// symbolic records loop headers whose exit condition depends on abstract data (their counters stay opaque);
+	// all other loops are unrolled with concrete counters.
+	symbolic map[*ssa.BasicBlock]bool
 }
 
 type interp struct {
@@ -166,6 +171,7 @@ type interp struct {
 	stopAt  func(b *ssa.BasicBlock) bool
 	curBlk  *ssa.BasicBlock
 	lazy    bool
+	restart bool
 }
 
 // Enumerate enumerates the paths of fn.
@@ -181,6 +187,9 @@ func EnumerateRegion(fn *ssa.Function, m *Model, start *ssa.BasicBlock, stopAt f
 	if m.MaxPaths == 0 {
 		m.MaxPaths = 4000
 	}
+	if m.symbolic == nil {
+		m.symbolic = map[*ssa.BasicBlock]bool{}
+	}
 	var out []*Path
 	work := [][]bool{{}}
 	for len(work) > 0 {
@@ -189,6 +198,12 @@ func EnumerateRegion(fn *ssa.Function, m *Model, start *ssa.BasicBlock, stopAt f
 		it := &interp{fn: fn, m: m, env: map[ssa.Value]val{}, globals: map[*ssa.Global]*Obj{}, path: &Path{Finals: map[string]*Term{}},
 			valu: map[string]bool{}, decs: decs, visits: map[*ssa.BasicBlock]int{}, start: start, stopAt: stopAt, lazy: start != nil}
 		taken, pruned, err := it.run()
+		if err == errRestart {
+			// a loop turned out to be data-dependent: start over with its header marked symbolic
+			out = nil
+			work = [][]bool{{}}
+			continue
+		}
 		if err != nil {
 			return out, err
 		}
@@ -649,6 +664,8 @@ func (it *interp) get(v ssa.Value) val {
 
 func (it *interp) term(v ssa.Value) *Term { return contentOfVal(it.get(v)) }
 
+var errRestart = fmt.Errorf("restart with a symbolic loop header")
+
 // phiName names a phi by its source variable and block so that different loops' counters stay distinct.
 func phiName(x *ssa.Phi) string {
 	name := x.Comment
@@ -733,13 +750,20 @@ func (it *interp) run() (taken []bool, pruned bool, err error) {
 			break
 		}
 		it.visits[b]++
-		if it.visits[b] > 2 {
+		limit := 2
+		if !it.lazy {
+			limit = 1200 // concretely counted loops are unrolled
+		}
+		if it.visits[b] > limit {
 			return it.decs, true, nil
+		}
+		if it.restart {
+			return nil, true, errRestart
 		}
 		it.curBlk = b
 		next, done := it.block(b, prev)
 		steps++
-		if steps > 20000 {
+		if steps > 400000 {
 			return it.decs, true, fmt.Errorf("step limit in %s", ssau.QName(it.fn))
 		}
 		if done {
@@ -804,7 +828,7 @@ func (it *interp) block(b *ssa.BasicBlock, prev *ssa.BasicBlock) (*ssa.BasicBloc
 	for _, in := range b.Instrs {
 		switch x := in.(type) {
 		case *ssa.Phi:
-			if loopHdr {
+			if loopHdr && (it.lazy || it.m.symbolic[b]) {
 				it.env[x] = tv{Leaf(phiName(x))}
 				// pointer-like phis in loops are not modelled
 				continue
@@ -832,6 +856,12 @@ func (it *interp) block(b *ssa.BasicBlock, prev *ssa.BasicBlock) (*ssa.BasicBloc
 				return b.Succs[0], false
 			}
 			if ct.Op == "#false" {
+				return b.Succs[1], false
+			}
+			if loopHdr && !it.lazy && !it.m.symbolic[b] {
+				// the exit test of a loop we are unrolling is not a constant: treat this loop symbolically from now on
+				it.m.symbolic[b] = true
+				it.restart = true
 				return b.Succs[1], false
 			}
 			atom, pol := normAtom(ct)
